@@ -14,10 +14,13 @@ independent writer of that format.
   `unlayout`          a recogniser that recovers content and layout from a text, so that a given
                       file (the distributed sample) can be shown to BE `listing …` by re-rendering
 
-"Exactly as written": the text after the tag, unchanged.  For `<2>` the written text is the
-comma-joined list, and an EMPTY `<2>` line is read as the one-element list `[""]` (Go's
-`strings.Split("", ",")`), which is how "no isoschizomers" comes back; an empty `<7>` line gives
-no suppliers (nil).
+"Exactly as written": the text after the tag, unchanged (blanks included).  For `<2>` the written
+text is the comma-joined list and the entry holds its comma-split.  READING recorded here on the
+coordinator's ruling: for an EMPTY `<2>` line "exactly as written" is read as the list Go's
+`strings.Split("", ",")` produces, the one-element list `[""]` — that is how "no isoschizomers"
+comes back from rebase.Parse and what `expectedMap` demands (so a repair that returned nil / `[]`
+there would be reported by this check).  An empty `<7>` line gives no suppliers (nil, `null` in the
+export).  `wfRec` forbids an empty isoschizomer NAME so that `[]` and `[""]` cannot both be written.
 -/
 namespace PolyVerif.Spec.RebaseListing
 open PolyVerif PolyVerif.LineText PolyVerif.Rebase
@@ -114,8 +117,10 @@ def codesNodup : List Supplier → Bool
   | [] => true
   | s :: r => !(r.map (·.code)).contains s.code && codesNodup r
 
+/-- a supplier line: the code letter is a non-blank ASCII character (Go stores the first BYTE of the
+trimmed line as the code and cuts the name at byte 9) -/
 def wfSupplier (indent : Str) (s : Supplier) : Bool :=
-  !isBlank s.code && s.code != '\n' && noNl s.name && noTags (supplierLine indent s)
+  !isBlank s.code && s.code != '\n' && noNl s.name && noTags (supplierLine indent s) && decide (s.code.toNat < 128)
 
 def wfRec (sups : List Supplier) (r : Rec) : Bool :=
   noNl r.name && r.isos.all (fun i => noNl i && !i.contains ',' && !i.isEmpty) && noNl r.recog && noNl r.meth
